@@ -2,14 +2,20 @@ import sys, os; sys.path.insert(0, os.path.join(os.path.dirname(os.path.abspath(
 import importlib, fs_jobs; importlib.reload(fs_jobs)
 from fs_jobs import step, bounds, OUTSIDE, ASSUMPTIONS
 P = 9
+# quick jobs: size rotation off (VF_LMAX=0), so that one send contains ONE rotation (a second rotation on the symbolic state left by
+# the first multiplies symex time by ~5); the interplay of daily and size rotation is in the thorough tier
+L0 = {'VF_LMAX': 0, 'VF_ACTIVE_FIXED': 1}
 JOBS = [
-    step(P, 'daily_change',  2, 1, 1, 0, 1, 0),
-    step(P, 'daily_same',    2, 1, 0, 0, 1, 0, tiers=('thorough',)),
-    step(P, 'daily_m0',      0, 0, 1, 1, 1, 0),
-    step(P, 'daily_gzleft',  4, 0, 1, 0, 1, 0, timeout=3000, mem=28),
+    step(P, 'daily_change',  2, 1, 1, 0, 1, 0, extra=L0),
+    step(P, 'daily_m0',      0, 0, 1, 1, 1, 0, extra=L0, tiers=('thorough',), timeout=3600, mem=28),      # startup + daily: two rotations in one send (about 25 min)
+    step(P, 'daily_gzleft',  4, 0, 1, 0, 1, 0, extra=L0, timeout=3000, mem=28),
+    step(P, 'daily_empty',   2, 1, 1, 0, 1, 0, extra={'VF_LMAX': 0, 'VF_ACTIVE_FIXED': 2}, tiers=('thorough',)),
+    step(P, 'daily_same',    2, 1, 0, 0, 1, 0, tiers=('thorough',), timeout=3600),
+    step(P, 'daily_size',    2, 1, 1, 0, 1, 0, tiers=('thorough',), timeout=5400, mem=32),
+    step(P, 'daily_m0_size', 0, 0, 1, 1, 1, 0, tiers=('thorough',), timeout=5400, mem=32),
     step(P, 'daily_gzmenu',  3, 1, 1, 0, 1, 0, tiers=('thorough',), timeout=3000, mem=28),
     step(P, 'daily_gz',      2, 1, 1, 0, 1, 1, tiers=('thorough',), timeout=3000, mem=28),
     step(P, 'daily_2writes', 2, 1, 2, 0, 1, 0, ops=2, tiers=('thorough',), timeout=5400, mem=40),
 ]
-BOUNDS = {'quick': bounds('daily rotation: day change before the write / no day change (size rotation only) on the menu {10.1, 11.1}; day change + startup rotation on {10.1, 10.2}; day change next to compressed leftovers {10.1.gz, 10.2.gz} with compression off'),
-          'thorough': bounds('plus a compressed older file with an index gap, compression, two writes (second one on a later day)')}
+BOUNDS = {'quick': bounds('(quick jobs: size rotation off and the active file holds exactly one one-character record, see VF_ACTIVE_FIXED in fs.cpp) daily rotation with a day change before the write on the menu {10.1, 11.1}; day change next to compressed leftovers {10.1.gz, 10.2.gz} with compression off'),
+          'thorough': bounds('plus day change + startup rotation on {10.1, 10.2}, an empty active file, a compressed older file with an index gap, compression, two writes (second one on a later day)')}
